@@ -125,7 +125,7 @@ class C12(flow.Spec):
                'C12_parse_total_never_panics / C12_parse_total_parseAML_never_panics: END TO END and UNCONDITIONAL - parseAML_body (all six passes, '
                'ANY fuel) resp. parseAML from init_state of any table over any pool NEVER panics and re-establishes R / valid indexes / slices-inside; '
                'the hypotheses speak only about the pool before the call and about sizes: R, valid indexes, live parentless ScopeBlock root, TM2, '
-               'every FREE SLOT carries a name without lead character (newObject keeps the name of a reused free slot; with a stale lead name Find can resolve a Scope directive to itself and free() panics), []byte typing, '
+               'every FREE SLOT carries a name without lead character (FN: no longer needed since newObject clears the name of a reused slot, /repo d18acb2; still a hypothesis of the statement), []byte typing, '
                'slices inside the earlier tables, fresh handle, image of at most 2^28 bytes, and an explicit '
                'quadratic memory bound.  Fuel exhaustion is NOT excluded (fuel is not analysed)',
                'C12_parse_total_first_table_never_panics / C12_parse_total_load_first_table_never_panics: the FIRST TABLE with no abstract hypothesis: '
